@@ -566,6 +566,23 @@ func check16DefaultScheme(c Case16, r *core.Rec) {
 	}
 	p := canonicalizer.New(buildOptions(c.Opts)...)
 	x := string(c.Input)
+	if c.HasBase && c.Base != "" {
+		// with a base that the default parser accepts, the default scheme has nothing to repair in the
+		// base, and a reference is never an "input that lacks a scheme": the result is the default one
+		if _, berr := url.Parse(string(c.Base)); berr == nil {
+			want := parse16(DefaultParser, c)
+			if d := sameOutcome(parse16(p, c), want); d != "" {
+				r.Failf("%s: the base parses, yet the profile's ParseRef differs from the default parser's: %s", where16(c), d)
+			}
+			r.Class("default-scheme:with-base")
+			if !want.ok() {
+				r.NT()
+			}
+		} else {
+			r.Vacuous()
+		}
+		return
+	}
 	u, err := p.Parse(x)
 	got := parsed{u, err}
 	d0u, d0err := url.Parse(x)
@@ -923,6 +940,11 @@ func Gen16(t *rapid.T) Case16 {
 			c.Input = B(gen.Input(t, "input"))
 		}
 		c.Opts = []Opt16{{Name: "default-scheme", Str: gen.Pick(t, "defscheme", []string{"http", "https", "foo", "", "9x", "file", "ws"})}}
+		if rapid.IntRange(0, 3).Draw(t, "dsBase") == 0 {
+			c.HasBase = true
+			c.Base = B(gen.Pick(t, "dsBaseV", []string{"mailto:a@b", "data:x", "foo:o?q", "http://h/p", "file:///d/e", "foo://h/p", "urn:x:y"}))
+			c.Input = B(gen.Ref(t, "dsRef", gen.SchemeOf(string(c.Base))))
+		}
 	case "neutral":
 		genInput16(t, &c)
 		n := rapid.IntRange(1, 4).Draw(t, "nopts")
